@@ -555,7 +555,7 @@ Section Interp.
     match make_frame 0 (fn_params fd) ds [] with
     | Some fr =>
         let finish (fr' : env) (v : val) :=
-          match deref_deep 8 fr' v, frame_results fr' 0 ds with
+          match deref_deep 3 fr' v, frame_results fr' 0 ds with
           | Some v', Some news => Some (v', news)
           | _, _ => None
           end in
